@@ -476,14 +476,14 @@ def _splice_private_modules(modules):
             if P is None or P is M or not base.rsplit('.', 1)[-1].startswith('_') or base.rsplit('.', 1)[-1].startswith('__') or getattr(P, 'is_pkg', False):
                 new_body.append(stmt)
                 continue
-            keep, moved = [], []
+            keep, moved, imports_moved = [], [], []
             for a in stmt.names:
                 d = tops[base].get(a.name)
                 if d is None or a.name == '*':
                     keep.append(a)
                     continue
                 # transitive closure of the module-level names of P the definition uses
-                need, todo, ok = {}, [(a.asname or a.name, a.name, d)], True
+                need, todo, ok, carry = {}, [(a.asname or a.name, a.name, d)], True, {}
                 while todo and ok:
                     as_name, orig, node = todo.pop()
                     if orig in need:
@@ -495,7 +495,9 @@ def _splice_private_modules(modules):
                         if g in tops[base]:
                             todo.append((g, g, tops[base][g]))
                         elif g in imaps[base]:
-                            if imaps[M.modname].get(g) != imaps[base][g]:
+                            if g not in imaps[M.modname] and g not in mine:
+                                carry[g] = imaps[base][g]       # the import moves along
+                            elif imaps[M.modname].get(g) != imaps[base][g]:
                                 ok = False
                         else:
                             ok = False
@@ -506,6 +508,18 @@ def _splice_private_modules(modules):
                 if not ok:
                     keep.append(a)
                     continue
+                for g, target in carry.items():
+                    if '.' in target and target.rsplit('.', 1)[1] == g:
+                        imp = ast.ImportFrom(module=target.rsplit('.', 1)[0], names=[ast.alias(name=g, asname=None)], level=0)
+                    elif target == g:
+                        imp = ast.Import(names=[ast.alias(name=g, asname=None)])
+                    elif '.' in target:
+                        imp = ast.ImportFrom(module=target.rsplit('.', 1)[0], names=[ast.alias(name=target.rsplit('.', 1)[1], asname=g)], level=0)
+                    else:
+                        imp = ast.Import(names=[ast.alias(name=target, asname=g)])
+                    ast.copy_location(imp, stmt)
+                    imports_moved.append(imp)
+                    imaps[M.modname][g] = target
                 for orig, (as_name, node) in need.items():
                     if as_name in mine:
                         continue
@@ -525,6 +539,7 @@ def _splice_private_modules(modules):
                     new_body.append(stmt)
                 # definitions that other moved definitions depend on come first (constants, then classes / functions in original order)
                 moved.sort(key=lambda n: (0 if isinstance(n, ast.Assign) else 1, getattr(n, 'lineno', 0)))
+                new_body.extend(imports_moved)
                 new_body.extend(moved)
             else:
                 new_body.append(stmt)
